@@ -37,6 +37,9 @@ const c11Shared = `(do
   (def shared-fn2 (fn [x] (do (cond false 0 true 1) (+ (shared-mac x) (-> x (+ 1)) (if (and x true) 1 0)))))
   (def shared-fn3 (fn [x] (let [y (or nil x)] (list (cond (> y 1000) :big true :small) (->> y (+ 1))))))
   (def shared-atom2 (atom (list 1 "str" :k [2 3] {:only 1})))
+  (def shared-empty-map {})
+  (def shared-empty-set (hash-set))
+  (def shared-fresh-memo (memoize (fn [x] (* x 7))))
   nil)`
 
 var c11Locals = []string{"a", "b", "c", "e", "x", "v", "n", "acc", "r", "f", "k", "tmp", "tmp2"}
@@ -67,6 +70,10 @@ var c11Templates = []struct {
 	{"conj-shared-count", `(let [v (conj shared-vec N :T)] (do (spin 3) (list (count v) (nth v 5) (nth v 6))))`},
 	{"assoc-shared", `(assoc shared-map :k N)`},
 	{"concat-shared", `(concat shared-list (list N))`},
+	{"assoc-shared-empty", `(let [m (assoc shared-empty-map :T N)] (do (spin 3) (list (count m) (get m :T) (count shared-empty-map))))`},
+	{"assoc-shared-empty-chain", `(assoc (assoc shared-empty-map :T N) :b N)`},
+	{"conj-shared-empty-set", `(let [s (conj shared-empty-set N :T)] (do (spin 3) (list (count s) (count shared-empty-set))))`},
+	{"memo-shared-first-calls", `(list (shared-fresh-memo N) (shared-fresh-memo 1) (shared-fresh-memo N))`},
 	{"rest-shared", `(cons N (rest shared-list))`},
 	{"splice-shared", "`(1 ~@shared-list ~N)"},
 	{"shared-fn", `(shared-fn N)`},
